@@ -56,7 +56,7 @@ struct thr {
   volatile int tid;
   pthread_t pt;
 };
-enum { K_PARKED = 0, K_SPINNER = 1, K_SLEEPER = 2, K_NULLSP = 3, K_EXITER = 4, K_FDCHURN = 5 };
+enum { K_PARKED = 0, K_SPINNER = 1, K_SLEEPER = 2, K_NULLSP = 3, K_EXITER = 4, K_FDCHURN = 5, K_ODDSP = 6 };
 
 static struct thr thrs[MAX_THREADS] __attribute__((aligned(16)));
 static int nthr;
@@ -88,8 +88,9 @@ static void die(const char *what) {
 void park_entry(struct thr *);
 void spin_entry(struct thr *);
 void nullsp_entry(struct thr *);
+void oddsp_entry(struct thr *);
 extern char spin_code_start[], spin_code_loop[], spin_code_end[];
-extern char park_syscall_insn[], nullsp_loop[];
+extern char park_syscall_insn[], nullsp_loop[], oddsp_loop[];
 __asm__(
     ".text\n"
     ".globl park_entry\n"
@@ -161,7 +162,17 @@ __asm__(
     "nullsp_loop:\n"
     "  inc %r12\n"
     "  pause\n"
-    "  jmp nullsp_loop\n");
+    "  jmp nullsp_loop\n"
+    // like nullsp_entry, but the stack pointer is loaded from the spec (any value, e.g. all ones)
+    ".globl oddsp_entry\n"
+    "oddsp_entry:\n"
+    "  mov 96(%rdi), %r12\n"
+    "  mov 32(%rdi), %rsp\n"
+    ".globl oddsp_loop\n"
+    "oddsp_loop:\n"
+    "  inc %r12\n"
+    "  pause\n"
+    "  jmp oddsp_loop\n");
 
 static void block_all_signals(void) {
   sigset_t s;
@@ -216,6 +227,9 @@ static void *thread_main(void *arg) {
     break;
   case K_NULLSP:
     nullsp_entry(t);
+    break;
+  case K_ODDSP:
+    oddsp_entry(t);
     break;
   case K_EXITER: {
     char c;
@@ -507,6 +521,7 @@ int main(int argc, char **argv) {
   printf("sym spin_code_loop %lx\n", (unsigned long)spin_code_loop);
   printf("sym spin_code_end %lx\n", (unsigned long)spin_code_end);
   printf("sym nullsp_loop %lx\n", (unsigned long)nullsp_loop);
+  printf("sym oddsp_loop %lx\n", (unsigned long)oddsp_loop);
   {
     extern ElfW(Dyn) _DYNAMIC[];
     printf("rdebug %d %lx %lx %lx\n", _r_debug.r_version, (unsigned long)_r_debug.r_brk, (unsigned long)_r_debug.r_ldbase, (unsigned long)_DYNAMIC);
